@@ -40,6 +40,7 @@ let case md line =
     let hint = ni t in
     let sched = rd_sched t in
     let data = bytes_of_hex (next t) in
+    let want_cuts = not (more t && next t = "c0") in
     let p = { c_poly = poly; c_avg = n_of_int avg; c_min = n_of_int mi; c_max = n_of_int ma } in
     if not (rabin_accepts p.c_avg p.c_min p.c_max) then "err:rejected | pok=0"
     else begin
@@ -48,11 +49,11 @@ let case md line =
         | Panic k -> "panic:" ^ panic_str k
         | OutOfFuel -> "model-out-of-fuel" in
       let pok = params_ok p in
-      if pok then begin
+      if pok && want_cuts then begin
         let cs = cuts p data in
         Printf.sprintf "%s | pok=1 cuts=%s bounds=%d concat=%d" r (String.trim (lens cs))
           (b2i (bounds_ok p.c_min p.c_max cs)) (b2i (List.concat cs = data))
-      end else r ^ " | pok=0"
+      end else r ^ (if pok then " | pok=1" else " | pok=0")
     end
   | "F" ->
     let size = ni t in let hint = ni t in
